@@ -27,6 +27,8 @@ META = {
 
 INSPECTOR_TRAIT = 'revm::inspector::Inspector'
 OBSERVERS = ('NoOpInspector', 'GasInspector', 'TracerEip3155')
+# std methods taking their receiver / arguments by shared reference (callees without MIR)
+STD_SHARED = {'eq', 'ne', 'clone', 'fmt', 'deref', 'as_ref', 'len', 'is_empty', 'borrow', 'cmp', 'partial_cmp', 'hash', 'to_string', 'to_owned'}
 # calls that take the interpreter / context by (mutable) reference but only read
 READ_ONLY = ('Gas::remaining', 'Gas::limit', 'Gas::refunded', 'Gas::spent', 'Interpreter::gas', 'Interpreter::stack', 'Stack::data', 'Stack::len',
              'Interpreter::current_opcode', 'Interpreter::program_counter', 'SharedMemory::len', 'SharedMemory::context_memory',
@@ -207,8 +209,11 @@ def check_purity(ctx, rep):
             # *_end methods return their outcome parameter
             if f.name.endswith('_end') and f.name != 'step_end':
                 outcome_param = f.argc
+                # private helpers of the inspector modules are inlined so that a write moved into a
+                # helper is still seen as a write on the outcome
+                helpers = {g.nq for g in fx.fns_all if g.nq.startswith('revm::inspector::') and g.impl_trait != INSPECTOR_TRAIT and g.nq != f.nq}
                 try:
-                    rs = Symx(fx, pure={'revm_interpreter::instruction_result::InstructionResult::is_error'}, max_paths=500).run(f)
+                    rs = Symx(fx, pure={'revm_interpreter::instruction_result::InstructionResult::is_error'}, max_paths=500, inline=helpers).run(f)
                 except Budget:
                     rep.undecided('R3-observer-purity', key + ':outcome', 'budget', f.where())
                     continue
@@ -231,10 +236,20 @@ def check_purity(ctx, rep):
                         tgt = render(e[1][0])
                         if not guard or 'result.gas' not in tgt:
                             odd.append('spend_all on %s without the is_error guard' % tgt[:60])
-                    other_writes = [e for e in p.events if e[1] and e[1][0][0] == 'ref' and e[1][0][1][0] == 'local' and not e[0].endswith(('Gas::spend_all', 'is_error'))
-                                    and 'outcome' in (f.local_name(e[1][0][1][2]) or '')]
-                    for e in other_writes:
-                        odd.append('call %s on the outcome' % e[0].split('::')[-1])
+                    # the outcome handed by `&mut` to anything else (after helper inlining)
+                    for e in p.events:
+                        if e[0].endswith('Gas::spend_all'):
+                            continue
+                        callee = fx.fns.get(e[0])
+                        short = e[0].split('::')[-1]
+                        for i, a in enumerate(e[1]):
+                            if a and a[0] == 'ref' and a[1][0] == 'local' and 'outcome' in (f.local_name(a[1][2]) or ''):
+                                if callee is not None and i + 1 <= callee.argc:
+                                    mutable = callee.local_ty(i + 1).startswith('&mut')
+                                else:
+                                    mutable = short not in STD_SHARED
+                                if mutable:
+                                    odd.append('passes the outcome mutably to %s' % short)
                 if odd:
                     rep.violation('R3-observer-purity', key + ':outcome', '%s::%s does not return the outcome it was given unchanged: %s' % (who, f.name, sorted(set(odd))[:2]), f.where())
                 elif not bad:
